@@ -766,13 +766,15 @@ int lp_value_mul_approx(const lp_value_t* v1, const lp_value_t* v2, lp_value_t* 
       } else {
         lp_dyadic_interval_construct_zero(&mul_dy_interval);
         dyadic_interval_mul(&mul_dy_interval, &v1->value.a.I, &v2->value.a.I);
+        // The product with the point 0 is a point: its upper end is not constructed
+        int mul_dy_is_point = mul_dy_interval.is_point;
         if (lb) {
           lp_value_assign_raw(lb, LP_VALUE_DYADIC_RATIONAL, &mul_dy_interval.a);
         }
         if (ub) {
-          lp_value_assign_raw(ub, LP_VALUE_DYADIC_RATIONAL, &mul_dy_interval.b);
+          lp_value_assign_raw(ub, LP_VALUE_DYADIC_RATIONAL, mul_dy_is_point ? &mul_dy_interval.a : &mul_dy_interval.b);
         }
-        is_point = 0;
+        is_point = mul_dy_is_point;
         lp_dyadic_interval_destruct(&mul_dy_interval);
       }
       break;
